@@ -606,7 +606,7 @@ SELFTEST = [
 
 LEVEL_TEXT += " Also (R3b = C16.R1): each detached handler task owns a waitgroup worker until its handler future completed, which is what makes the join's wait cover detached handlers."
 
-LEVEL_TEXT += " Also (R6): each waiter's is_terminated() is exactly that of its own shared handle, and both protocol sub-builders of the connection builder get a timer (hyper's HTTP/1 header-read timeout lets shutdown finish past a half-sent request). Also (R2): the select! polling the close receiver starts at a random branch or is biased with the close receiver first, so a requested shutdown is seen under load; (R5) the crate never sets SO_LINGER (no abortive close of a served connection). Also (R8 = C18.R2): the accept loops await nothing but their select!."
+LEVEL_TEXT += " Also (R6): each waiter's is_terminated() is exactly that of its own shared handle, and both protocol sub-builders of the connection builder get a timer (hyper's HTTP/1 header-read timeout lets shutdown finish past a half-sent request). Also (R2): the select! polling the close receiver starts at a random branch or is biased with the close receiver first, so a requested shutdown is seen under load; (R5) the crate never sets SO_LINGER (no abortive close of a served connection). Also (R8 = C18.R2): the accept loops await nothing but their select!. Also (R1): no caller of close() in the crate races it with a timer or a select."
 
 
 SELFTEST += [
